@@ -237,7 +237,11 @@ def handle_sharded_tensor_elasticity(
             manifest[logical_path] = merged_sd_entries[logical_path]
             tokens = logical_path.split("/")
             key = tokens.pop()
-            manifest["/".join(tokens)].keys.append(key)
+            parent = manifest["/".join(tokens)]
+            # List entries don't track their items. The path component of
+            # a dict key is percent-encoded.
+            if is_dict_entry(parent):
+                parent.keys.append(unquote(key))
 
     # Remove sharded tensor entries that are not requested from the manifest
     for logical_path in list(manifest.keys()):
